@@ -393,6 +393,18 @@ pub fn run_check(tier: Tier, _replay: Option<String>) -> i32 {
             if c.max_energy_error < 500.0 {
                 jobs.push((ci, vec![(k, FaultKind::Drop600)], format!("k{k}-drop_600")));
             }
+            // (round 13, after C13k) an unrecoverable error right after a fault that the chain
+            // survives (a retry with a halved step, a trajectory that goes on): also in Q, where
+            // the general pair alphabet below leaves the unrecoverable kind out
+            if tier == Tier::Quick {
+                for j in 1..=2u64 {
+                    if k + j < e {
+                        for f1 in [FaultKind::Recoverable, FaultKind::HugeDrop] {
+                            jobs.push((ci, vec![(k, f1), (k + j, FaultKind::Unrecoverable)], format!("k{k}-{}+k{}-unrecoverable_err", f1.name(), k + j)));
+                        }
+                    }
+                }
+            }
             for j in 1..=window {
                 if k + j >= e {
                     continue;
